@@ -3,6 +3,11 @@ package main
 // Hashes, signatures and other crypto primitives as uninterpreted functions / contract stubs.
 
 import (
+	"crypto/sha512"
+
+	bip39 "github.com/tyler-smith/go-bip39"
+	"golang.org/x/crypto/pbkdf2"
+
 	"crypto/ed25519"
 	"crypto/md5"
 	"crypto/sha1"
@@ -142,6 +147,44 @@ func registerCrypto(P *Program) {
 			return in.ts.False()
 		}
 		return in.bytesEq(x, ys)
+	})
+	// bip39 / pbkdf2: evaluated natively on concrete arguments (mnemonics are operator input, fixed in harnesses)
+	r("github.com/tyler-smith/go-bip39.NewEntropy", func(in *Interp, caller *frame, fn *ssa.Function, args []Value) Value {
+		n := in.concreteInt(args[0].(*Term), "bip39.NewEntropy")
+		in.opq++
+		a := make([]Value, n/8)
+		for i := range a {
+			a[i] = in.ts.FreshSym(fmt.Sprintf("entropy%d[%d]", in.opq, i), BVSort(8))
+		}
+		return Tuple{SliceV{A: a}, Iface{}}
+	})
+	r("github.com/tyler-smith/go-bip39.NewMnemonic", func(in *Interp, caller *frame, fn *ssa.Function, args []Value) Value {
+		in.injUFs["bip39.mnemonic"] = true
+		return Tuple{in.ts.App("bip39.mnemonic", StrSort, in.sliceStr(args[0].(SliceV))), Iface{}}
+	})
+	r("github.com/tyler-smith/go-bip39.EntropyFromMnemonic", func(in *Interp, caller *frame, fn *ssa.Function, args []Value) Value {
+		m := args[0].(*Term)
+		if m.IsConst() {
+			e, err := bip39.EntropyFromMnemonic(m.s)
+			if err != nil {
+				return Tuple{SliceV{}, in.newError(in.ts.Str(err.Error()))}
+			}
+			return Tuple{in.mkBytes(e), Iface{}}
+		}
+		if in.branch(nil, nil, in.ts.App("bip39.valid", BoolSort, m)) {
+			return Tuple{SliceV{Blob: in.strBlob(in.ts.App("bip39.entropy", StrSort, m))}, Iface{}}
+		}
+		return Tuple{SliceV{}, in.newError(in.ts.Str("Invalid mnenomic"))}
+	})
+	r("golang.org/x/crypto/pbkdf2.Key", func(in *Interp, caller *frame, fn *ssa.Function, args []Value) Value {
+		pw, ok1 := concBytes(args[0].(SliceV))
+		salt, ok2 := concBytes(args[1].(SliceV))
+		iter, _ := cint(args[2])
+		kl, _ := cint(args[3])
+		if ok1 && ok2 {
+			return in.mkBytes(pbkdf2.Key(pw, salt, int(iter), int(kl), sha512.New))
+		}
+		return in.ufBytes("pbkdf2", int(kl), in.sliceStr(args[0].(SliceV)), in.sliceStr(args[1].(SliceV)))
 	})
 	r("github.com/google/uuid.New", func(in *Interp, caller *frame, fn *ssa.Function, args []Value) Value {
 		in.opq++
